@@ -394,7 +394,7 @@ def _inst(w, app, cls):
     return cache[k][1]
 
 
-def unfold(w, formulas, fuel=2, facts=None):
+def unfold(w, formulas, fuel=2, facts=None, allclass_budget=0):
     """Definitional equations  F(t) == body[t]  for the spec-function applications occurring in
     `formulas`.  Recursive spec functions are unfolded `fuel` levels; the lazily defined child
     combinators (F__mapc …, wf) as GUARDED instances  is_C(t) -> F__mapc(t) == C(…)  for every
@@ -407,55 +407,132 @@ def unfold(w, formulas, fuel=2, facts=None):
     done = set()
     cands = {}
     pending = []          # lazy apps waiting for a class candidate
+    known = _known_classes(S, list(facts) if facts is not None else [])   # FACTS only
+    for f_ in (facts or []):
+        if z3.is_not(f_) and z3.is_app(f_.arg(0)) and f_.arg(0).decl().name() == "is_node_p":
+            known[f_.arg(0).arg(0).get_id()] = "<nonnode>"
+    keep = {}           # keeps terms alive so ids stay valid
+
+    def class_of(t):
+        if z3.is_app(t) and t.decl().kind() == z3.Z3_OP_DT_CONSTRUCTOR and t.sort() == S.Py:
+            nm = t.decl().name()
+            return nm if nm in S.classes else "<nonnode>"
+        return known.get(t.get_id())
+
+    def specialise(inst, args):
+        subs = []
+        for a in args:
+            if a.sort() != S.Py:
+                continue
+            c = class_of(a)
+            if c is None:
+                continue
+            if c == "<nonnode>":
+                for d in S.node_classes:
+                    subs.append((getattr(S.Py, "is_" + d)(a), z3.BoolVal(False)))
+                continue
+            for d in S.all_py_constructors:
+                subs.append((getattr(S.Py, "is_" + d)(a), z3.BoolVal(d == c)))
+        if not subs:
+            return inst
+        return z3.simplify(z3.substitute(inst, *subs))
+    links = []          # (app, inst) equations between Py terms, for class propagation
+
+    def propagate():
+        changed = True
+        while changed:
+            changed = False
+            for a_, i_ in links:
+                if a_.get_id() not in known:
+                    c = class_of(i_)
+                    if c is not None:
+                        known[a_.get_id()] = c
+                        changed = True
     frontier = [(a, 0) for a in _collect(w, list(formulas) + list(facts or []), visited, cands)]
-    budget = 3000
-    while frontier and budget > 0:
-        budget -= 1
-        app, lvl = frontier.pop()
-        n = app.decl().name()
-        if n in w.lazy:
-            t = app.arg(0)
-            if lvl > fuel:
-                continue
-            if z3.is_app(t) and t.decl().kind() == z3.Z3_OP_DT_CONSTRUCTOR:
-                classes = [(t.decl().name(), False)]
-            else:
-                cs = set(cands.get(t.get_id(), ()))
-                fc = _field_class(S, t)
-                if fc:
-                    cs.add(fc)
-                classes = [(c, True) for c in sorted(cs)]
-            if not classes:
-                pending.append((app, lvl))
-            for cls, guarded in classes:
-                if (app.get_id(), cls) in done:
+    budget = 30000
+    while budget > 0:
+        while frontier and budget > 0:
+            budget -= 1
+            app, lvl = frontier.pop()
+            n = app.decl().name()
+            if n in w.lazy:
+                t = app.arg(0)
+                if lvl > fuel:
                     continue
-                done.add((app.get_id(), cls))
-                if guarded and cls not in S.all_py_constructors:
+                if class_of(t) == "<nonnode>":
+                    kind_, sf_ = w.lazy[n]
+                    dflt = {"mapc": t, "foldc": S.nil, "allc": z3.BoolVal(True),
+                            "wf": z3.BoolVal(True)}[kind_]
+                    if (app.get_id(), "nonnode") not in done:
+                        done.add((app.get_id(), "nonnode"))
+                        eqs.append(app == dflt)
                     continue
-                inst = _inst(w, app, cls)
-                eq = app == inst
-                if guarded:
-                    eq = z3.Implies(getattr(S.Py, "is_" + cls)(t), eq)
-                eqs.append(eq)
-                frontier.extend((a, lvl + 1) for a in _collect(w, [inst], visited, None))
-        else:
-            if app.get_id() in done:
-                continue
-            recursive = w.defs[n][3]
-            if recursive and lvl >= fuel:
-                continue
-            done.add(app.get_id())
-            inst = _inst(w, app, None)
-            eqs.append(app == inst)
-            nl = lvl + 1 if recursive else lvl
-            frontier.extend((a, nl) for a in _collect(w, [inst], visited, cands))
-        if not frontier and pending:
-            still = []
-            for app2, lvl2 in pending:
-                if cands.get(app2.arg(0).get_id()):
-                    frontier.append((app2, lvl2))
+                if class_of(t) is not None:
+                    classes = [(class_of(t), False)]
                 else:
-                    still.append((app2, lvl2))
-            pending = still
+                    cs = set(cands.get(t.get_id(), ()))
+                    fc = _field_class(S, t)
+                    if fc:
+                        cs.add(fc)
+                    classes = [(c, True) for c in sorted(cs)]
+                if not classes or (classes[0][1] and t.get_id() not in known):
+                    pending.append((app, lvl))
+                for cls, guarded in classes:
+                    if (app.get_id(), cls) in done:
+                        continue
+                    done.add((app.get_id(), cls))
+                    if guarded and cls not in S.all_py_constructors:
+                        continue
+                    inst = _inst(w, app, cls)
+                    eq = app == inst
+                    if guarded:
+                        eq = z3.Implies(getattr(S.Py, "is_" + cls)(t), eq)
+                    elif app.sort() == S.Py:
+                        links.append((app, inst))
+                    eqs.append(eq)
+                    frontier.extend((a, lvl + 1) for a in _collect(w, [inst], visited, None))
+            else:
+                if app.get_id() in done:
+                    continue
+                recursive = w.defs[n][3]
+                if recursive and lvl >= fuel:
+                    continue
+                done.add(app.get_id())
+                inst = specialise(_inst(w, app, None), app.children())
+                keep[inst.get_id()] = inst
+                eqs.append(app == inst)
+                if app.sort() == S.Py:
+                    links.append((app, inst))
+                nl = lvl + 1 if recursive else lvl
+                frontier.extend((a, nl) for a in _collect(w, [inst], visited, cands))
+        if not pending:
+            break
+        propagate()
+        still = []
+        for app2, lvl2 in pending:
+            cs2 = set(cands.get(app2.arg(0).get_id(), ()))
+            if class_of(app2.arg(0)) is not None:
+                cs2.add(class_of(app2.arg(0)))
+            if any((app2.get_id(), c) not in done for c in cs2):
+                frontier.append((app2, lvl2))
+            else:
+                still.append((app2, lvl2))
+        pending = still
+        if not frontier:
+            break
+    # class still unknown: a bounded number of full case splits (guarded instance per node class),
+    # children of those instances are not unfolded further
+    n_all = 0
+    for app2, lvl2 in sorted(pending, key=lambda x: x[1]):
+        if lvl2 > 2 or n_all >= allclass_budget or (app2.get_id(), "*") in done:
+            continue
+        done.add((app2.get_id(), "*"))
+        n_all += 1
+        kind, sf = w.lazy[app2.decl().name()]
+        t = app2.arg(0)
+        extra = [app2.arg(i) for i in range(1, app2.num_args())]
+        for c2 in S.node_classes:
+            eqs.append(z3.Implies(S.rec(c2)(t), app2 == _inst(w, app2, c2)))
+        dflt = {"mapc": t, "foldc": S.nil, "allc": z3.BoolVal(True), "wf": z3.BoolVal(True)}[kind]
+        eqs.append(z3.Implies(z3.Not(S.is_node(t)), app2 == dflt))
     return eqs
